@@ -72,6 +72,10 @@ fn main() {
     let st: Vec<_> = ohmc::props::structured::shapes(3).into_iter().map(|x| x.1).collect();
     let tfl: Vec<TF> = vec![TF { n: [1, 1, 1], recipe: 0 }, TF { n: [2, 0, 1], recipe: 4 }, TF { n: [0, 2, 1], recipe: 2 }];
     ctx.run_slice(Slice::new(format!("native-structured[{} diagrams x {} functors]", st.len(), tfl.len()), st.len() as u64 * tfl.len() as u64, |i, loc| check_native(&st[(i / tfl.len() as u64) as usize], tfl[(i % tfl.len() as u64) as usize], loc)));
+    // the same on large diagrams (sizes 33 .. 129)
+    let sizes: Vec<usize> = if ctx.quick() { vec![33, 65] } else { vec![33, 64, 65, 129] };
+    let big: Vec<_> = ohmc::props::structured::shapes_at(&sizes, false).into_iter().map(|x| x.1).collect();
+    ctx.run_slice(Slice::new(format!("native-structured-large[sizes {:?}: {} diagrams x {} functors]", sizes, big.len(), tfl.len()), big.len() as u64 * tfl.len() as u64, |i, loc| check_native(&big[(i / tfl.len() as u64) as usize], tfl[(i % tfl.len() as u64) as usize], loc)));
     let meta = Meta {
         rule: "45 functors (as in C12, including images handed over as un-quotiented lax composites) crossed with every quotient-free lax diagram of the universes: try_define_map_arrow must return a diagram that can be quotiented and is then isomorphic to the dyn-functor (strict path) image and to literal substitution; map_arrow_witness must return the same diagram plus a witness with one segment per input node, of length |F(label)|, carrying the labels of F(label) in order, such that the input interfaces pushed through witness and quotient are the output interfaces; every lax diagram with a pending unification must be refused by both; plus four-node diagrams over a third node label and diagrams with three hyperedges".into(),
         bounds: "<=2 nodes, <=1 (quick) / 2 hyperedges of arity <=2, interfaces <=1; 3-node diagrams (prefix in quick); refusal: <=2-3 nodes, <=2 pending pairs".into(),
